@@ -231,6 +231,7 @@ def panic_obligations(F, res, roots, prop_rows, cg=None, grammar=None, crates=No
     as_str_rules = collect_as_str(F, it) if it else {}
     cache = {}
     n_sites = 0
+    all_keys = {s_.key() for s_ in sites}
     for s in sites:
         f = s.fn
         p = f["path"]
@@ -282,6 +283,15 @@ def panic_obligations(F, res, roots, prop_rows, cg=None, grammar=None, crates=No
                 if by:
                     break
         row_broken = None
+        if by is None and key not in rows:
+            # the same site described differently (how the unwrapped value is produced changed form): a row for this function,
+            # kind and operation whose own key matches no site any more
+            pref = "|".join(key.split("|")[:3])
+            alt = [k for k in rows if k.startswith(pref + "|") and k not in all_keys]
+            if len(alt) == 1:
+                rows[key] = rows[alt[0]]
+                if alt[0] in row_prems:
+                    row_prems[key] = row_prems[alt[0]]
         if by is None and key in rows:
             used_rows.add(key)
             if key in row_prems:
